@@ -161,6 +161,23 @@ func run(r *ev.Run, cfg props.Cfg, prop string) {
 	}
 	wg.Wait()
 	if prop == "C09" {
+		// ActionMachine (channel/actionmachine.go): random walks against the documented behaviour
+		nAct := cfg.Pick(20000, 400000)
+		perA := (nAct + cfg.Workers - 1) / cfg.Workers
+		for wk := 0; wk < cfg.Workers; wk++ {
+			wk := wk
+			wg.Add(1)
+			go func() {
+				defer wg.Done()
+				rng := gen.NewRand(cfg.Seed, fmt.Sprintf("cmachine/actions/%d", wk))
+				for i := 0; i < perA; i++ {
+					if !actionWalk(r, rng, wk == 0 && i < 2) {
+						return
+					}
+				}
+			}()
+		}
+		wg.Wait()
 		out := map[string][4]int64{}
 		phases := map[string]bool{}
 		for k, v := range matrix {
@@ -177,6 +194,7 @@ func run(r *ev.Run, cfg props.Cfg, prop string) {
 		r.Count("matrix_cells_hit", int64(len(out)))
 		r.Count("phases_hit", int64(len(phases)))
 	}
+	r.Count("steps_skipped_after_an_ill_dimensioned_forced_state", atomic.LoadInt64(&mexplore.NarrowSkips))
 	if n := atomic.LoadInt64(&mexplore.HarnessPanics); n > 0 {
 		r.Note("%d steps were skipped because the explorer's bookkeeping could not follow the implementation (only possible after a reported defect)", n)
 		r.Count("explorer_steps_skipped_after_a_defect", n)
